@@ -782,7 +782,7 @@ func parentAllowsPOmit(n string) bool {
 // genHTMLDoc produces a conforming document.
 // reAmpBeforeComment: guard html-comment-removal-joins-reference — a comment never directly follows an
 // ampersand (with or without the start of a reference name).
-var reAmpBeforeComment = regexp.MustCompile(`(&[A-Za-z0-9#]*)<!--`)
+var reAmpBeforeComment = regexp.MustCompile(`(&[A-Za-z0-9#]*;?)<!--`) // (also the ampersand written as a reference: &amp;<!--c-->lt)
 
 func genHTMLDoc(r *core.Rand, payloads bool) string {
 	return reAmpBeforeComment.ReplaceAllString(genHTMLDocRaw(r, payloads), "$1 <!--")
